@@ -2,6 +2,7 @@ package checks
 
 import (
 	"fmt"
+	"strings"
 	"time"
 
 	sdk "github.com/cosmos/cosmos-sdk/types"
@@ -26,8 +27,18 @@ type genSource struct {
 	PTx        float64
 	BlockHook  func(r *kernel.Run, rng *kernel.Rng, b *kernel.Block, idx int)
 	NoDupStale bool
-	txInBlock  int
-	txQuota    int
+	// CrashP: probability per block that the node dies before Commit or at the k-th write of the commit batch and is
+	// restarted over what the disk kept (F-crash); the block is then re-executed as Tendermint's replay does
+	CrashP float64
+	// ExportP: probability per block (not the first) that the chain is exported after the block and a fresh node is
+	// initialised from the exported genesis (F-export)
+	ExportP float64
+	// SimP: probability that a generated transaction is diverted: only handed to the node's Simulate service
+	// (F-simulate) or replaced by the product of one of SimGens (rolled-back governance executions, F-rollback)
+	SimP      float64
+	SimGens   []TxGen
+	txInBlock int
+	txQuota   int
 }
 
 func (g *genSource) NextBlock(r *kernel.Run) *kernel.Block {
@@ -37,6 +48,16 @@ func (g *genSource) NextBlock(r *kernel.Run) *kernel.Block {
 	b := &kernel.Block{DtNs: g.Cadence(r, g.rng)}
 	if g.BlockHook != nil {
 		g.BlockHook(r, g.rng, b, g.made)
+	}
+	if g.ExportP > 0 && g.made > 0 && b.Crash == 0 && g.rng.P(g.ExportP) {
+		b.Export = true
+	}
+	if g.CrashP > 0 && b.Crash == 0 && !b.Export && g.rng.P(g.CrashP) {
+		if g.rng.Bool() {
+			b.Crash = -1
+		} else {
+			b.Crash = g.rng.Range(1, 24)
+		}
 	}
 	g.made++
 	g.txInBlock = 0
@@ -52,6 +73,22 @@ func (g *genSource) NextTx(r *kernel.Run, b *kernel.Block) *kernel.Tx {
 		return nil
 	}
 	g.txInBlock++
+	if g.SimP > 0 && g.rng.P(g.SimP) {
+		for tries := 0; tries < 4; tries++ {
+			var gen TxGen
+			if k := g.rng.Intn(2 * len(g.SimGens)); k < len(g.SimGens) {
+				gen = g.SimGens[k]
+			} else {
+				gen = g.TxGens[g.rng.Intn(len(g.TxGens))]
+			}
+			if tx := gen(r, g.rng); tx != nil && tx.Route != "sig" {
+				if tx.Route != "atomic" {
+					tx.Route, tx.Dup, tx.SeqDelta = "sim", false, 0
+				}
+				return tx
+			}
+		}
+	}
 	for tries := 0; tries < 4; tries++ {
 		gen := g.TxGens[g.rng.Intn(len(g.TxGens))]
 		if tx := gen(r, g.rng); tx != nil {
@@ -132,6 +169,10 @@ func bankSendGen(senders []string, recipients []string, withFees bool) TxGen {
 			return nil
 		}
 		to := recipients[rng.Intn(len(recipients))]
+		if rng.Intn(12) == 0 {
+			// somebody pays straight into a module account the distributor uses (the bank refuses blocked addresses)
+			to = kernel.ModuleAddr(distModuleAccounts[rng.Intn(len(distModuleAccounts))]).String()
+		}
 		msg := &banktypes.MsgSend{FromAddress: kernel.ActorBech(from), ToAddress: to, Amount: sdk.NewCoins(sdk.NewCoin(coin.Denom, amt))}
 		js, err := kernel.MsgToJSON(msg)
 		if err != nil {
@@ -153,4 +194,44 @@ func bankSendGen(senders []string, recipients []string, withFees bool) TxGen {
 		}
 		return tx
 	}
+}
+
+// simOverlay switches two "nothing may stick" faults on for a source. A quarter of the generated transactions are
+// diverted: half of them are only handed to the node's Simulate service (F-simulate; the ante chain of this SDK refuses
+// module-account signers there, so these are ordinary client transactions), the other half are rolled-back governance
+// executions (F-rollback): a parameter update of one of the three configurable modules naming the governance
+// authority, followed by a message that must fail, executed the way x/gov executes the messages of a passed
+// proposal - on one cached context that is dropped when a message fails. Afterwards the chain must behave by
+// the stored configuration; the property's oracles keep running unchanged.
+func simOverlay(src *genSource, spec *kernel.WorldSpec) {
+	distCfg := DistGenCfg{MaxSubs: 3, MultiSource: true, ShareToMain: true, AllowBurn: true}
+	for _, c := range spec.Clients {
+		distCfg.BaseAddrs = append(distCfg.BaseAddrs, kernel.ActorBech(c))
+	}
+	mcfg := MinterGenCfg{MaxPeriods: 3, MaxAmountExp: 24, MaxStepsHint: 200, Horizon: 2000 * 3600 * 1e9, AllowNone: true}
+	g := &govWorld{Voter: spec.Clients[0], Attackers: spec.Clients, DistCfg: distCfg, MinterCfg: mcfg, SaneMinter: true}
+	huge, _ := sdk.NewIntFromString("1" + strings.Repeat("0", 40))
+	failing := &banktypes.MsgSend{FromAddress: gov(), ToAddress: kernel.ActorBech(spec.Clients[0]), Amount: sdk.NewCoins(sdk.NewCoin("nosuchcoin", huge))}
+	rolledBack := func(r *kernel.Run, rng *kernel.Rng) *kernel.Tx {
+		var m sdk.Msg
+		switch rng.Intn(3) {
+		case 0:
+			m = g.minterUpdate(r, rng, gov())
+		case 1:
+			m = g.distUpdate(r, rng, gov())
+		default:
+			m = g.vestingUpdate(r, rng, gov())
+		}
+		if m == nil {
+			return nil
+		}
+		j1, err1 := kernel.MsgToJSON(m)
+		j2, err2 := kernel.MsgToJSON(failing)
+		if err1 != nil || err2 != nil {
+			return nil
+		}
+		return &kernel.Tx{Signer: spec.Clients[0], Msgs: []jsonRaw{j1, j2}, Route: "atomic", Note: "rolled-back-gov-update"}
+	}
+	src.SimP = 0.25
+	src.SimGens = []TxGen{rolledBack}
 }
